@@ -21,6 +21,7 @@ let () =
   Ad_notiftrace.init ();
   Ad_excltrace.init ();
   Ad_pubsubtrace.init ();
+  Ad_workertrace.init ();
   let fn_cases = ref 0 and fn_bad = ref 0 in
   let file = Sys.argv.(1) in
   let ic = open_in file in
